@@ -41,7 +41,7 @@ pub fn install(h: &Rc<Handle>) -> DeepGuard {
     COUNTDOWN.with(|c| c.set(1));
     BATCH.with(|c| c.set(1));
     CURRENT.with(|c| c.set(Rc::as_ptr(h)));
-    DEBUG_SAMPLE.with(|d| d.set(std::env::var("VERIF_DEEP_SAMPLE").is_ok()));
+    DEBUG_SAMPLE.with(|d| d.set(std::env::var("VERIF_DEEP_SAMPLE").ok().map(|v| v.parse::<u64>().unwrap_or(997).max(1)).unwrap_or(0)));
     DeepGuard { _keep: h.clone() }
 }
 
@@ -61,7 +61,8 @@ pub fn entries() -> (u64, u64) {
 // ---------------------------------------------------------------------------
 
 thread_local! {
-    static DEBUG_SAMPLE: Cell<bool> = const { Cell::new(false) };
+    /// print every k-th counted function entry (0 = never)
+    static DEBUG_SAMPLE: Cell<u64> = const { Cell::new(0) };
 }
 static mut DEBUG_LO: usize = 0;
 static mut TEXT_LO: usize = 0;
@@ -247,7 +248,8 @@ pub unsafe extern "C" fn mcount_handler(ret: usize) {
         e.set(e.get() + 1);
         e.get()
     });
-    if nc % 997 == 0 && DEBUG_SAMPLE.with(|d| d.get()) {
+    let period = DEBUG_SAMPLE.with(|d| d.get());
+    if period > 0 && nc % period == 0 {
         eprintln!("deep-sample {:#x}", ret - TEXT_LO + DEBUG_LO);
     }
     let c = COUNTDOWN.with(|c| {
